@@ -300,7 +300,8 @@ BR_RE = re.compile(r"^(?P<lab>[A-Za-z@][\w@]*)(?P<k>[+-]\d+)?$")
 def run_c03(run, thorough=False):
     rnd = random.Random(run.seed * 727 + 13)
     cases = list(gen_asm.branch_sweep(rnd, thorough)) + list(gen_asm.pcr_interacting(rnd, 60 if not thorough else 1500)) + \
-        list(gen_asm.pcr_runs(rnd, thorough)) + list(gen_asm.random_programs(rnd, 150 if not thorough else 2000, valid_bias=0.97))
+        list(gen_asm.pcr_runs(rnd, thorough)) + list(gen_asm.random_programs(rnd, 150 if not thorough else 2000, valid_bias=0.97)) + \
+        [{"lines": gen_asm.L(*(b + sfx)), "tag": "pcr-order", "meta": {}} for b, sfx in gen_asm.pcr_order(thorough)]
     res = fam_asm.compare_progs(run, "asm.disp", cases, project=proj_layout)
     bad = {fam_asm_key(d["input"]) for d in run.disagreements}
     todo = []
@@ -762,6 +763,9 @@ def c18_programs(rnd, n):
             if l not in lab_at.values():
                 lines.append("%s NOP" % l)
         out.append({"lines": gen_asm.L(*lines), "tag": "c18", "meta": {"org": org, "labels": labels}})
+    # directed: a suffix whose backward PCR reference spans an undecided forward one (the size loop must not depend on it)
+    for b, sfx in gen_asm.pcr_order(False):
+        out.append({"lines": gen_asm.L(*([" ORG $3000"] + b)), "tag": "c18-order", "meta": {"org": 0x3000, "labels": ["T0", "T1", "T2"], "suffix": sfx}})
     # directed: moves that put a label+n / label-n reference, or the last byte of the program, on the edge of the address space
     labels = ["LA", "LB", "LOOP", "DATA1", "Q9"]
     tail = ["%s NOP" % l for l in labels[1:]]
@@ -817,6 +821,8 @@ def run_c18(run, thorough=False):
         rnd.shuffle(new)
         mapping = dict(zip(names, new))
         suffix = gen_asm.L(*rnd.choice([[" NOP", "EXTRA LDA #1", " BRA EXTRA"], ["TAIL FCB 1,2", " FDB TAIL"], [" LEAX LA,PCR", "NEW2 RTS"], [" RMB 300", " LDA LA"]]))
+        if c["meta"].get("suffix"):
+            suffix = gen_asm.L(*c["meta"]["suffix"])
         variants.append((c, D, shifted, mapping, rename(lines, mapping), reformat(rnd, lines), lines + suffix))
     allcases = []
     for c, D, sh, mp, rn, rf, ap in variants:
